@@ -39,4 +39,10 @@ var registry = []propCfg{
 		Parts: []partCfg{{Test: "TestC04", Quick: 20000, Thorough: 200000}},
 		Assum: []string{"values bound to empty segments and the trailing slash of a tail value are not pinned down by the statement and only checked through the round trip"},
 	},
+	{
+		ID: "C17", Level: "exploration",
+		Rule:  "rapid generates a table in the fragment both matching engines support (literal, possibly nested roots; literal and {var} route segments; no If-conditions) and 1-6 table-derived clean URLs (with and without one trailing slash). For each URL one bodiless, header-less probe per method (GET POST PUT PATCH DELETE HEAD OPTIONS FOO get plus every method in the table) is dispatched on a container without the OPTIONS filter: routable = methods not answered 404/405. Every 405 must carry Allow == routable (as sets); a twin container with Container.OPTIONSFilter must answer OPTIONS without running a route, with Allow and Access-Control-Allow-Methods == routable (OPTIONS itself not compared), and must leave every other method's outcome unchanged. Non-trivial: at least two methods are routable at the URL. Distinct: FNV-64 of the case JSON.",
+		Parts: []partCfg{{Test: "TestC17", Quick: 6000, Thorough: 60000}},
+		Assum: []string{"routability is observed by probing the real container, not taken from the model", "failures matching the signature of D12 (more than one root matches; extra methods come from the less specific service) are counted as excluded while D12 is open"},
+	},
 }
